@@ -88,6 +88,13 @@ func PurgeBuildReverseIndex(stores context2.Stores, opts ...PurgeOption) (*Purge
 		zap.Stringer("blob_store", blob),
 	)
 
+	if !options.resume {
+		// a build from scratch replaces the existing index: chunks of an earlier, longer index must not survive it
+		if erd := PurgeDropReverseIndex(stores, opts...); erd != nil {
+			return nil, erd
+		}
+	}
+
 	if options.resume {
 		// reload existing index files into a fresh local KV store
 		lastIndex, numKeys, ts, erp := preloadIndexFiles(ctx, stores, db, logger, options)
